@@ -332,3 +332,15 @@ pub fn ln_contract(x: TwoFloat) -> TwoFloat {
         havoc_tf()
     }
 }
+
+/// contract stub for `TwoFloat::ln` on its error domain: NaN for an argument with a NaN word or a valid
+/// argument <= 0 (C15 decides both on the real code), any value otherwise
+pub fn ln_domain_contract(x: TwoFloat) -> TwoFloat {
+    let nan_word = x.hi().is_nan() || x.lo().is_nan();
+    let nonpos = x.hi() < 0.0 || (x.hi() == 0.0 && x.lo() <= 0.0);
+    if nan_word || nonpos {
+        tf(f64::NAN, f64::NAN)
+    } else {
+        havoc_tf()
+    }
+}
